@@ -25,9 +25,11 @@ class RCells(RObj):
         self.is_cached = is_cached
         self.allow_none = allow_none
         self.space = None
+        self.pname = name
 
     def copy(self):
         c = RCells(self.name, self.formula, self.is_cached, self.allow_none)
+        c.pname = self.pname
         return c
 
 
